@@ -9,6 +9,39 @@ package geo
 // C18: rectangle predicates and the scaling of coordinates to 32-bit cells
 // ---------------------------------------------------------------------------
 
+// ---- the bounding rectangle of a circle ----
+// Trigonometric functions are uninterpreted (deterministic) functions; the contract pins the
+// rectangle to the spherical-cap formula taken from geometry, not from the code: a circle of
+// angular radius d around a point of latitude phi (pole not inside) spans phi-d .. phi+d in latitude
+// and lambda -+ asin(sin d / cos phi) in longitude, wrapped into [-pi, pi]; when a pole is inside it
+// spans all longitudes. d = (dist + 0.07 m) / mean earth radius.
+//@ uf fsin(x float64) float64
+//@ uf fcos(x float64) float64
+//@ uf fasin(x float64) float64
+//@ assume func math.Sin(x)
+//@   pure
+//@   ensures result == fsin(x) || (isNaN(result) && isNaN(fsin(x)))
+//@ assume func math.Cos(x)
+//@   pure
+//@   ensures result == fcos(x) || (isNaN(result) && isNaN(fcos(x)))
+//@ assume func math.Asin(x)
+//@   pure
+//@   ensures result == fasin(x) || (isNaN(result) && isNaN(fasin(x)))
+//@ spec rad(d float64) float64 = d * (math.Pi / 180)
+//@ spec deg(r float64) float64 = r * (180 / math.Pi)
+//@ spec capRadius(dist float64) float64 = (dist + 0.07) / 6371008.7714
+//@ spec capHalfWidth(lat float64, dist float64) float64 = fasin(fsin(capRadius(dist)) / fcos(rad(lat)))
+//@ spec poleFree(lat float64, dist float64) bool = rad(lat) - capRadius(dist) > rad(-90.0) && rad(lat) + capRadius(dist) < rad(90.0)
+//@ spec sameF(a float64, b float64) bool = a == b || (isNaN(a) && isNaN(b))
+//@ func RectFromPointDistance
+//@   props C18
+//@   mode bv
+//@   ensures iff(result4 == nil, !isNaN(lon) && -180 <= lon && lon <= 180 && !isNaN(lat) && -90 <= lat && lat <= 90)
+//@   ensures implies(result4 == nil && poleFree(lat, dist), sameF(result1, deg(rad(lat) + capRadius(dist))) && sameF(result3, deg(rad(lat) - capRadius(dist))))
+//@   ensures implies(result4 == nil && poleFree(lat, dist), sameF(result0, deg(ite(rad(lon) - capHalfWidth(lat, dist) < rad(-180.0), rad(lon) - capHalfWidth(lat, dist) + 2*math.Pi, rad(lon) - capHalfWidth(lat, dist)))))
+//@   ensures implies(result4 == nil && poleFree(lat, dist), sameF(result2, deg(ite(rad(lon) + capHalfWidth(lat, dist) > rad(180.0), rad(lon) + capHalfWidth(lat, dist) - 2*math.Pi, rad(lon) + capHalfWidth(lat, dist)))))
+//@   ensures implies(result4 == nil && !poleFree(lat, dist), sameF(result0, deg(rad(-180.0))) && sameF(result2, deg(rad(180.0))))
+
 // Proof obligations are written as calls of verifAssert(cond): its precondition is cond.
 //@ func verifAssert
 //@   requires cond
